@@ -120,7 +120,7 @@ def san_key(report):
 class Array:
     def __init__(self, root, nd=3, nlev=1, zmode=False, blocksize_k=1, hashsize=16,
                  ncontent=2, splits=None, extra_conf=(), autosave=None, pool=False,
-                 disk_names=None, content_on_data=True):
+                 disk_names=None, content_on_data=True, content_subdir=None):
         self.root = root
         self.nd = nd
         self.nlev = nlev
@@ -136,11 +136,15 @@ class Array:
         self.disk_names = disk_names or ["d%d" % (i + 1) for i in range(nd)]
         self.disks = list(range(nd))  # active disk indices (into disk_names), config order
         self.content_on_data = content_on_data
+        # content copies kept on data disks live in the disk root, or (content_subdir) in a sub-directory of it
+        self.content_subdir = content_subdir
         self.conf = os.path.join(root, "conf")
         self.logn = 0
         os.makedirs(root, exist_ok=True)
         for i in range(nd):
             os.makedirs(self.ddir(i), exist_ok=True)
+            if content_subdir:
+                os.makedirs(os.path.join(self.ddir(i), content_subdir), exist_ok=True)
         os.makedirs(os.path.join(root, "par"), exist_ok=True)
         os.makedirs(os.path.join(root, "cnt"), exist_ok=True)
         os.makedirs(os.path.join(root, "logs"), exist_ok=True)
@@ -166,7 +170,8 @@ class Array:
             if k >= self.ncontent:
                 break
             if self.content_on_data:
-                out.append(os.path.join(self.ddir(i), "snapraid.content"))
+                out.append(os.path.join(self.ddir(i), self.content_subdir, "snapraid.content") if self.content_subdir
+                           else os.path.join(self.ddir(i), "snapraid.content"))
                 k += 1
         while k < self.ncontent:
             out.append(os.path.join(self.root, "cnt", "c%d.content" % k))
